@@ -47,6 +47,9 @@ NONVOCAB = [
     ("boolean", "m and s"), ("boolean", "not m"), ("boolean", "m or s"), ("string", "'m'"), ("string", "f'{1}'"), ("string", '"m"*2'), ("walrus", "(x:=2)*m"),
     ("operator", "m@s"), ("operator", "m%s"), ("operator", "m//s"), ("operator", "m^2"), ("operator", "m+s"), ("operator", "m-s"), ("operator", "m|s"), ("operator", "m&s"),
     ("operator", "~m"), ("operator", "m<<2"), ("tuple", "m,s"), ("statement", "m;s"), ("statement", "m=s"), ("dict", "{1:2}"), ("set", "{1,2}"), ("call:dunder", "m.__mul__(s)"),
+    ("dunder-namespace", "__builtins__['abs'](-1)*m"), ("dunder-namespace", "__builtins__['len']('aa')*m"), ("dunder-namespace", f"__builtins__['open']('{CANARY}','w')"),
+    ("dunder-namespace", "__builtins__['__import__']('os').getcwd()"), ("dunder-namespace", "__builtins__['eval']('1')*m"), ("dunder-namespace", "__builtins__['max'](1,2)*m"),
+    ("dunder-namespace", "m*__builtins__['int'](2)"), ("dunder-namespace", "__builtins__.get('abs')(-2)*m"),
     ("call:sympify", "sympify('m')"), ("call:globals", "globals()"), ("call:system", "__import__('os').system('true')"), ("ellipsis", "..."), ("none", "None"),
 ]
 
@@ -273,7 +276,8 @@ def _case_arith(case, part):
     from unyt.exceptions import InvalidUnitOperation
     from unyt.unit_registry import UnitRegistry
 
-    asts, p, custom, do_simplify, history = case
+    asts, p, custom, do_simplify, history = case[:5]
+    mode2 = case[5] if len(case) > 5 else 0
     out = []
     reg = None
     if custom:
@@ -298,6 +302,14 @@ def _case_arith(case, part):
                 out.append(("C20:printed-text-stale-after-simplify", {"terms": texts, "before": before, "after": str(x), "expr": str(x.expr)}))
         elif do_simplify:
             x = (u * v / w).simplify()
+        if mode2 in (1, 2, 3):
+            # a numeric coefficient first (from simplify folding prefixes, from a quantity, from a string), a power afterwards
+            from unyt import unyt_quantity
+
+            y = (u * v / w).simplify() if mode2 == 1 else (u / w) * Unit(unyt_quantity([1000.0, 2.0, 0.5, 10.0, 3.75, 1e-3][len(texts[0]) % 6], "m", registry=reg), registry=reg) if mode2 == 2 \
+                else Unit(f"{[1000, 2, 0.5, 10, 7, 250][len(texts[1]) % 6]}*({texts[0]})", registry=reg) * v
+            x = y ** (float(p) if p.denominator in (2, 4) else p) if p != 1 else y
+            part.count("coefficient-then-power units")
     except InvalidUnitOperation:
         return out
     s = float(x.base_value)
@@ -313,7 +325,7 @@ def _case_arith(case, part):
 def arith_case(draw):
     asts = [draw(G.unit_ast(max_factors=2, mild=True, coeff=False)) for _ in range(3)]
     p = draw(st.sampled_from([Fr(1), Fr(1), Fr(2), Fr(-1), Fr(1, 2), Fr(1, 3), Fr(3, 2), Fr(-2, 3), Fr(5, 6), Fr(1, 4)]))
-    return (asts, p, draw(st.integers(0, 4)) == 0, draw(st.booleans()), draw(st.integers(0, 3)) == 0)
+    return (asts, p, draw(st.integers(0, 4)) == 0, draw(st.booleans()), draw(st.integers(0, 3)) == 0, draw(st.sampled_from([0, 0, 1, 2, 3])))
 
 
 def part_atomic(payload):
@@ -373,7 +385,13 @@ def _case_malformed(s, part):
 def part_nonvocab(payload):
     known = core.Known("C20")
     part = core.Part()
-    for kind, s in NONVOCAB + [(k, t.replace("m", "km").replace("s)", "hr)")) for k, t in NONVOCAB[:20]]:
+    # whatever else sits in the parser's evaluation namespace after earlier parses (read as data): none of it is vocabulary
+    import unyt._parsing as P_
+
+    extra = []
+    for key in sorted(k for k in getattr(P_, "global_dict", {}) if k not in ("Symbol", "Integer", "Float", "Rational", "sqrt")):
+        extra += [("namespace-entry", f"{key}['abs'](-1)*m"), ("namespace-entry", f"{key}['len']('aa')*m"), ("namespace-entry", f"m*{key}['int'](3)")]
+    for kind, s in NONVOCAB + extra + [(k, t.replace("m", "km").replace("s)", "hr)")) for k, t in NONVOCAB[:20]]:
         out = []
         r = totality(s, part, out, "non-vocabulary")
         if r is not None and r[0] == "unit":
